@@ -218,8 +218,17 @@ fn execute_found(sc: &Scenario, acc: &mut Acc) -> Result<Vec<Found>, String> {
     let newest_incomplete = pre_view.bands.iter().next_back().map(|(_, b)| !b.is_closed()).unwrap_or(false);
     let lock_held = pre.nodes.contains_key("GC_LOCK") && !*break_lock;
     let kept_unopenable = pre_view.bands.iter().any(|(id, b)| !bands.contains(id) && !matches!(b.head, FileView::Ok(_)));
+    // A kept band holding a hunk file that does not decode - in these histories only the
+    // zero-length leftover of a write killed between creating and filling the file, a state
+    // that lies outside the property's quantifier (histories "as C02": stopped BEFORE an
+    // operation) and that the even seeds add on top of it. Conserve refuses the delete then,
+    // because it cannot know what that hunk referenced; that is not demanded otherwise.
+    let kept_unreadable_hunk = pre_view.bands.iter().any(|(id, b)| !bands.contains(id) && b.hunks.values().any(|h| !matches!(h, FileView::Ok(_))));
     let must_refuse = newest_incomplete || lock_held;
-    let may_refuse = must_refuse || kept_unopenable;
+    let may_refuse = must_refuse || kept_unopenable || kept_unreadable_hunk;
+    if kept_unreadable_hunk {
+        acc.hit("kept_band_with_zero_length_hunk");
+    }
 
     let mut founds_v: Vec<Found> = Vec::new();
     let mut plans: Vec<FaultPlan> = Vec::new();
